@@ -10,7 +10,8 @@ ID = 'C04'
 GEN_FILES = ['K_compress', 'K_p8png', 'K_p8png_codec']
 COQ_PROPERTY = 'theories/Properties/C04.vo'
 COQ_EXTRA = ['theories/Generated/K_p8png_selftest.vo', 'theories/Generated/K_p8png_codec_selftest.vo',
-             'theories/Generated/K_compress_selftest.vo']
+             'theories/Generated/K_compress_selftest.vo',
+             'theories/Properties/C04Chain.vo']     # C04_p8_png_p8: composition with the .p8 stack (C03's cone)
 MODEL = ('ExC04', 'c04_main.ml')
 MONITOR = ('MonC04', 'c04_mon_main.ml')
 CASE_TIMEOUT = 900
@@ -34,7 +35,9 @@ ASSUMPTIONS = [
 PARTIAL = ('"The written image is a valid PNG" and "pixels of the file" are runtime behaviour of pypng + zlib, outside the '
            'Coq model: observed on every case by an independent PNG reader (signature, CRCs, chunk order, zlib stream, '
            'filters, size), not proved. The theorems are about the pixel rows handed to / received from pypng. '
-           'The .p8 -> .p8.png -> .p8 chain is observed (thorough tier) but its theorem needs the C03 model.')
+           'The .p8 -> .p8.png -> .p8 chain: C04_p8_png_p8 (Properties/C04Chain.v) is proved at the model level with the '
+           'lexer-stack facts (echo writer reproduces the text, re-lexing succeeds) as hypotheses, as in C03; the real '
+           'chain is observed on the test carts and generated carts.')
 TRUSTED = ['harness/pngref.py (independent PNG reader/writer, ~150 lines, cross-checked against pypng on the test carts)',
            'Spec/P8PngSpec.v and Spec/PxcFormat.v: the cart image format transcribed by hand from the format notes',
            'pypng + zlib (container: observed, not modelled)']
@@ -51,8 +54,10 @@ CLAIM = dict(
           "plain was refused when its compressed form did not fit). Tie: stego channel expressions, header bytes, slice "
           "bounds, join order, size tests regenerated on every run; pixel loops / layout hand-modelled and compared on "
           "real files written by file.to_file and decoded by an independent PNG reader; extracted instance predicates "
-          "judge the real pixels and the real cart read back. PARTIAL: PNG container validity and the .p8->.p8.png->.p8 "
-          "chain are observed at run time, not proved."),
+          "judge the real pixels and the real cart read back. C04_p8_png_p8 (Properties/C04Chain.v) composes this with C03's .p8 round trip: "
+          ".p8 -> .p8.png -> .p8 succeeds at every step and preserves regions and version, the code up to the two readers' "
+          "normalisations (lexer-stack facts as hypotheses). PARTIAL: PNG container validity is observed at run time "
+          "with an independent PNG reader, not proved."),
     note=("Trusted: Coq kernel+VM, translator + sub-expression hook, ExtrOcamlBasic extraction, OCaml glue, "
           "harness/pngref.py, the hand transcription of the cart image format in Spec/P8PngSpec.v, the hand-modelled "
           "loops of Model/PngStego.v and Model/P8Png.v. pypng/zlib are not modelled."),
